@@ -51,6 +51,12 @@ func c28Variants(tp *netsim.Topo, thorough bool) []c28Variant {
 		vs = append(vs, c28Variant{Name: fmt.Sprintf("2gen/new:as%d:maxexp=10", a), Old: mod(nil), OldFirst: a%2 == 0,
 			New: mod(func(c *netsim.Topo) { c.ASes[a].MaxExp = 10 })})
 	}
+	// the older generation predates the last peering link: its segments do not announce it (a peering link announced
+	// by one side only must not be used when generations are mixed)
+	if nl := len(tp.Links); nl > 0 && tp.Links[nl-1].Kind == netsim.PeerLink {
+		vs = append(vs, c28Variant{Name: "2gen/old-lacks-last-peering-link", New: mod(nil), OldFirst: true,
+			Old: mod(func(c *netsim.Topo) { c.Links = c.Links[:nl-1] })})
+	}
 	if !thorough {
 		return vs
 	}
